@@ -1,8 +1,9 @@
-import PermutaModel.Basic
+import PermutaModel.Spec.C16
 /-!
 # C16 (pin half) — abstract proper pin sequences and their intervals
 
-Pure point geometry over `Rat × Rat`, no reference to the model.  A *pin sequence* is a list of points,
+Pure point geometry over `Rat × Rat`, no reference to the model (the definitions `Pt`, `co`, `Btw`, `Extr`,
+`SepA`, `PinSeqA` live in `Spec/C16.lean`).  A *pin sequence* is a list of points,
 newest first, in which every point but the two oldest separates its predecessor from all older
 points on one axis and lies beyond all of them on the other axis, the axes alternating
 (`PinSeqA`).  `classify`: the only proper intervals of such a configuration are "everything but one
@@ -10,28 +11,6 @@ of the two oldest points" and "the newest point with one of the two oldest point
 (Brignall–Huczynska–Vatter).
 -/
 namespace C16P
-
-abbrev Pt := Rat × Rat
-
-/-- the coordinate on which a vertical (`true`) / horizontal (`false`) pin lies *between* -/
-def co (v : Bool) (p : Pt) : Rat := if v then p.1 else p.2
-
-/-- in coordinate `f`, `p` lies strictly between `q` and every point of `rest` -/
-def Btw (f : Pt → Rat) (p q : Pt) (rest : List Pt) : Prop :=
-  ((∀ r ∈ rest, f r < f p) ∧ f p < f q) ∨ ((∀ r ∈ rest, f p < f r) ∧ f q < f p)
-
-/-- in coordinate `f`, `p` lies strictly beyond every point of `l`, on one side -/
-def Extr (f : Pt → Rat) (p : Pt) (l : List Pt) : Prop :=
-  (∀ r ∈ l, f r < f p) ∨ (∀ r ∈ l, f p < f r)
-
-/-- `p` is a proper pin for `q :: rest`: it separates `q` from `rest` and is extremal on the other axis -/
-def SepA (v : Bool) (p q : Pt) (rest : List Pt) : Prop :=
-  Btw (co v) p q rest ∧ Extr (co (!v)) p (q :: rest)
-
-/-- proper pin sequence, newest point first; the Boolean is the axis of the newest pin -/
-def PinSeqA : Bool → List Pt → Prop
-  | v, p :: q :: r :: rest => SepA v p q (r :: rest) ∧ PinSeqA (!v) (q :: r :: rest)
-  | _, _ => True
 
 /-- `c` lies, in coordinate `f`, on one side of all members of `S` -/
 def Out (f : Pt → Rat) (L : List Pt) (S : Pt → Prop) (c : Pt) : Prop :=
